@@ -8,6 +8,7 @@ namespace Vanguard
 /-- One step of the scripted backend handler. -/
 inductive BOp where
   | readn (k buf : Nat)        -- read until k bytes were read by this op (buffer `buf`), or error
+  | readfix (k buf : Nat)      -- the same with every `Read` asking for `buf` bytes (proxy-style reader)
   | readall (buf : Nat)        -- read with buffer `buf` until an error
   | sethdr (k v : Bytes)
   | addhdr (k v : Bytes)
@@ -32,6 +33,10 @@ structure BackendObs where
   read : Bytes := []
   readEnd : Option Err := none     -- none = still open
   writes : List Bool := []         -- per write: failed?
+  /-- after every read op: (bytes delivered to the handler so far, bytes taken from the client's body so far) -/
+  readProg : List (Nat × Nat) := []
+  /-- after every write op: (items written to the client so far, items written when last flushed) -/
+  writeProg : List (Nat × Option Nat) := []
   deriving Repr
 
 structure Obs where
@@ -59,14 +64,14 @@ def httpErrorResponse (k : Sink) (code : Nat) (allow : Option Bytes) : Sink :=
     (s "X-Content-Type-Options") (s "nosniff")
   ({ k with hdr := h }.writeHeader code).writeItem (.raw (s "<gen>"))
 
-def rawReadN (k buf : Nat) : Nat → Source → Nat → Bytes → Option Err → Source × Bytes × Option Err
+def rawReadN (k buf : Nat) (capped : Bool := true) : Nat → Source → Nat → Bytes → Option Err → Source × Bytes × Option Err
   | 0, src, _, rd, re => (src, rd, re)
   | fuel + 1, src, got, rd, re =>
     if got ≥ k then (src, rd, re) else
-    let (b, e, src) := src.read (min buf (k - got))
+    let (b, e, src) := src.read (if capped then min buf (k - got) else buf)
     match e with
     | some err => (src, rd ++ b, some err)
-    | none => rawReadN k buf fuel src (got + b.length) (rd ++ b) re
+    | none => rawReadN k buf capped fuel src (got + b.length) (rd ++ b) re
 
 def rawReadAll (buf : Nat) : Nat → Source → Bytes → Source × Bytes × Option Err
   | 0, src, rd => (src, rd, some .other)
@@ -76,14 +81,14 @@ def rawReadAll (buf : Nat) : Nat → Source → Bytes → Source × Bytes × Opt
     | some err => (src, rd ++ b, some err)
     | none => rawReadAll buf fuel src (rd ++ b)
 
-def flightReadN (w : World) (pl : HandlePlan) (k buf : Nat) : Nat → Flight → Nat → Bytes → Option Err → Flight × Bytes × Option Err
+def flightReadN (w : World) (pl : HandlePlan) (k buf : Nat) (capped : Bool := true) : Nat → Flight → Nat → Bytes → Option Err → Flight × Bytes × Option Err
   | 0, f, _, rd, re => (f, rd, re)
   | fuel + 1, f, got, rd, re =>
     if got ≥ k || f.panic then (f, rd, re) else
-    let (bs, e, f) := f.read w pl (min buf (k - got))
+    let (bs, e, f) := f.read w pl (if capped then min buf (k - got) else buf)
     match e with
     | some err => (f, rd ++ bs, some err)
-    | none => flightReadN w pl k buf fuel f (got + bs.length) (rd ++ bs) re
+    | none => flightReadN w pl k buf capped fuel f (got + bs.length) (rd ++ bs) re
 
 def flightReadAll (w : World) (pl : HandlePlan) (buf : Nat) : Nat → Flight → Bytes → Flight × Bytes × Option Err
   | 0, f, rd => (f, rd, some .other)
@@ -95,42 +100,64 @@ def flightReadAll (w : World) (pl : HandlePlan) (buf : Nat) : Nat → Flight →
     | none => flightReadAll w pl buf fuel f (rd ++ bs)
 
 /-- A handler working directly on the client's request and writer (pass-through / unknown). -/
-def runRaw (script : List BOp) (src : Source) (sink : Sink) : Source × Sink × Bytes × Option Err × List Bool :=
-  let r := script.foldl (fun (acc : Bool × Source × Sink × Bytes × Option Err × List Bool) op =>
-    let (closed, src, sink, rd, re, ws) := acc
+def Source.left (src : Source) : Nat := src.chunks.flatten.length
+
+structure RawRun where
+  closed : Bool := false
+  src : Source
+  sink : Sink
+  read : Bytes := []
+  readEnd : Option Err := none
+  writes : List Bool := []
+  readProg : List (Nat × Nat) := []
+  writeProg : List (Nat × Option Nat) := []
+
+def runRaw (script : List BOp) (src : Source) (sink : Sink) : RawRun :=
+  let total0 := src.left
+  script.foldl (fun (a : RawRun) op =>
     match op with
     | .readn k buf =>
-      if closed then (closed, src, sink, rd, if k == 0 then re else some .other, ws) else
-      let (src, rd, re) := rawReadN k buf (k + 2) src 0 rd re
-      (closed, src, sink, rd, re, ws)
+      let a := if a.closed then { a with readEnd := if k == 0 then a.readEnd else some .other } else
+        let (src, rd, re) := rawReadN k buf true (k + 2) a.src 0 a.read a.readEnd
+        { a with src := src, read := rd, readEnd := re }
+      { a with readProg := a.readProg ++ [(a.read.length, total0 - a.src.left)] }
+    | .readfix k buf =>
+      let a := if a.closed then { a with readEnd := if k == 0 then a.readEnd else some .other } else
+        let (src, rd, re) := rawReadN k buf false (k + 2) a.src 0 a.read a.readEnd
+        { a with src := src, read := rd, readEnd := re }
+      { a with readProg := a.readProg ++ [(a.read.length, total0 - a.src.left)] }
     | .readall buf =>
-      if closed then (closed, src, sink, rd, some .other, ws) else
-      let (src, rd, re) := rawReadAll buf src.fuel src rd
-      (closed, src, sink, rd, re, ws)
-    | .sethdr k v => (closed, src, { sink with hdr := sink.hdr.set k v }, rd, re, ws)
-    | .addhdr k v => (closed, src, { sink with hdr := Hdr.add sink.hdr k v }, rd, re, ws)
-    | .status c => (closed, src, sink.writeHeader c, rd, re, ws)
+      let a := if a.closed then { a with readEnd := some .other } else
+        let (src, rd, re) := rawReadAll buf a.src.fuel a.src a.read
+        { a with src := src, read := rd, readEnd := re }
+      { a with readProg := a.readProg ++ [(a.read.length, total0 - a.src.left)] }
+    | .sethdr k v => { a with sink := { a.sink with hdr := a.sink.hdr.set k v } }
+    | .addhdr k v => { a with sink := { a.sink with hdr := Hdr.add a.sink.hdr k v } }
+    | .status c => { a with sink := a.sink.writeHeader c }
     | .write b =>
-      let sink := sink.write b
+      let sink := a.sink.write b
       let code := sink.status.getD 200
       let bodyAllowed := !((100 ≤ code && code ≤ 199) || code == 204 || code == 304)
-      (closed, src, sink, rd, re, ws ++ [!bodyAllowed])
-    | .flush => (closed, src, { sink with flushes := sink.flushes + 1 }, rd, re, ws)
-    | .close => (true, src, sink, rd, re, ws)) (false, src, sink, [], none, [])
-  r.2
+      { a with sink := sink, writes := a.writes ++ [!bodyAllowed],
+               writeProg := a.writeProg ++ [(sink.items.length, sink.flushedN)] }
+    | .flush => { a with sink := a.sink.flush }
+    | .close => { a with closed := true }) { src := src, sink := sink }
 
 /-- Interpretation of the scripted handler against the transcoding adapters. -/
-def runScript (w : World) (tb : Tables) (pl : HandlePlan) (script : List BOp) (f : Flight) : Flight × BackendObs :=
+def runScript (w : World) (tb : Tables) (pl : HandlePlan) (script : List BOp) (total0 : Nat) (f : Flight) : Flight × BackendObs :=
   script.foldl (fun (acc : Flight × BackendObs) op =>
     let (f, b) := acc
     if f.panic then (f, b) else
     match op with
     | .readn k buf =>
-      let (f, rd, re) := flightReadN w pl k buf (k + 2) f 0 b.read b.readEnd
-      (f, { b with read := rd, readEnd := re })
+      let (f, rd, re) := flightReadN w pl k buf true (k + 2) f 0 b.read b.readEnd
+      (f, { b with read := rd, readEnd := re, readProg := b.readProg ++ [(rd.length, total0 - f.st.src.left)] })
+    | .readfix k buf =>
+      let (f, rd, re) := flightReadN w pl k buf false (k + 2) f 0 b.read b.readEnd
+      (f, { b with read := rd, readEnd := re, readProg := b.readProg ++ [(rd.length, total0 - f.st.src.left)] })
     | .readall buf =>
       let (f, rd, re) := flightReadAll w pl buf (300 * f.st.src.fuel + 300 * f.st.op.query.length * 64 + 1048576) f b.read
-      (f, { b with read := rd, readEnd := re })
+      (f, { b with read := rd, readEnd := re, readProg := b.readProg ++ [(rd.length, total0 - f.st.src.left)] })
     | .sethdr k v => ({ f with st := f.st.setHdr (f.st.hdr.set k v) }, b)
     | .addhdr k v => ({ f with st := f.st.setHdr (Hdr.add f.st.hdr k v) }, b)
     | .status c =>
@@ -138,7 +165,8 @@ def runScript (w : World) (tb : Tables) (pl : HandlePlan) (script : List BOp) (f
       ({ f with st := st, panic := f.panic || p }, b)
     | .write data =>
       let (st, failed, p) := rwWrite w tb f.st data
-      ({ f with st := st, panic := f.panic || p }, { b with writes := b.writes ++ [failed] })
+      ({ f with st := st, panic := f.panic || p },
+       { b with writes := b.writes ++ [failed], writeProg := b.writeProg ++ [(st.sink.items.length, st.sink.flushedN)] })
     | .flush => (f, b)
     | .close => (f.close, b)) (f, {})
 
@@ -183,10 +211,11 @@ def connectGetQuery (w : World) (o : Op) (v : Bytes) : Option Bytes :=
     client sees is exactly what the handler does. -/
 def forwardObs (sc : Scenario) (disp : Dispatch) : Obs :=
   let r := sc.req
-  let (_, sink, rd, re, ws) := runRaw sc.script sc.src {}
-  { dispatch := disp, passThrough := true, sink := sink,
+  let a := runRaw sc.script sc.src {}
+  { dispatch := disp, passThrough := true, sink := a.sink,
     backend := { method := r.method, path := r.path, rawQuery := r.rawQuery, protoMajor := r.protoMajor,
-                 contentLength := r.contentLength, headers := r.headers, read := rd, readEnd := re, writes := ws } }
+                 contentLength := r.contentLength, headers := r.headers, read := a.read, readEnd := a.readEnd,
+                 writes := a.writes, readProg := a.readProg, writeProg := a.writeProg } }
 
 /-- `Transcoder.ServeHTTP`. -/
 def serve (w : World) (sc : Scenario) : Obs :=
@@ -247,7 +276,7 @@ def serve (w : World) (sc : Scenario) : Obs :=
             | none => .transforming {}
         -- drainBody for a skipped body
         let st := if skipBody then { st with src := { st.src with chunks := [] } } else st
-        let (f, b) := runScript w sc.tables pl sc.script { st := st, rd := rd }
+        let (f, b) := runScript w sc.tables pl sc.script sc.src.left { st := st, rd := rd }
         let (st, p) := if f.panic then (f.st, true) else rwClose w sc.tables f.st
         { dispatch := .svc, sink := st.sink, panic := p,
           backend := { b with method := bmethod, path := o.conf.path, rawQuery := bquery,
